@@ -49,6 +49,8 @@ pub fn alphabet(core: bool) -> Vec<(&'static str, Call)> {
         ("aligned-64", Call::StartAligned { name: "al64".into(), opts: o(8), align: 64 }),
         ("start_extra", Call::StartExtra { name: "x".into(), opts: o(0) }),
         ("start_extra-deflated-large", Call::StartExtra { name: "xl".into(), opts: FOpts { large: true, ..o(8) } }),
+        // the level is only looked at when the extra data ends: the refusal (and whatever follows it) comes late
+        ("start_extra-deflated-level77", Call::StartExtra { name: "x77".into(), opts: FOpts { level: Some(77), ..o(8) } }),
         ("end_local_start_central", Call::EndLocalStartCentral),
         ("end_extra", Call::EndExtra),
         ("add_directory", Call::AddDir { name: "d".into(), opts: o(0) }),
